@@ -156,6 +156,9 @@ func (p *DcProgram) ExpectedGenerated() []string {
 		if d.Kind == "alias" && d.Under.K == "builtin" && d.Custom == "" {
 			continue // a defined type over a builtin is copied by assignment; nothing to generate
 		}
+		if d.Kind == "alias" && d.Under.K == "ptr" {
+			continue // Go allows no methods on a defined pointer type
+		}
 		enabled := p.PkgTag[d.Pkg] && d.Tag != "false" || !p.PkgTag[d.Pkg] && d.Tag == "true"
 		if enabled {
 			out = append(out, d.QName())
@@ -204,7 +207,7 @@ func (g *dcGen) te(cur, pos string, depth int) *DcTE {
 	isIface := func(d *DcDecl) bool { return d.Kind == "iface" }
 	isAliasB := func(d *DcDecl) bool { return d.Kind == "alias" && d.Under.K == "builtin" && d.Custom == "" }
 	isAliasRef := func(d *DcDecl) bool {
-		return d.Kind == "alias" && (d.Under.K == "map" || d.Under.K == "slice") && d.Custom == "" && d.Tag != "false"
+		return d.Kind == "alias" && (d.Under.K == "map" || d.Under.K == "slice" || d.Under.K == "ptr") && d.Custom == "" && d.Tag != "false"
 	}
 	for try := 0; try < 20; try++ {
 		k := r.Intn(14)
@@ -336,10 +339,15 @@ func (g *dcGen) pkg(cur string, ndecl int) {
 			g.add(&DcDecl{Pkg: cur, Name: g.name("B"), Kind: "alias", Under: &DcTE{K: "builtin", Name: r.Pick(dcBuiltins)}})
 		case k == 7 || k == 8:
 			var u *DcTE
-			if r.Bool() {
+			switch r.Intn(5) {
+			case 0, 1:
 				u = &DcTE{K: "map", Key: &DcTE{K: "builtin", Name: "string"}, Elem: g.te(cur, "map", 1)}
-			} else {
+			case 2, 3:
 				u = &DcTE{K: "slice", Elem: g.te(cur, "slice", 1)}
+			default:
+				// a defined type over a pointer: Go allows no methods on it
+				u = &DcTE{K: "ptr", Elem: g.te(cur, "ptr", 1)}
+				g.feats["defined-over-pointer"] = true
 			}
 			g.add(&DcDecl{Pkg: cur, Name: g.name("A"), Kind: "alias", Under: u})
 			g.feats["top-level-defined-type"] = true
@@ -1074,7 +1082,7 @@ func DeepCopyProperty(impl DcImpl) Property {
 var DcArraysOfReferences = true
 
 // DcNoModel: while the Lean model is being built the cases are judged by the oracle only
-var DcNoModel = true
+var DcNoModel = false
 
 func uniqStrings(s []string) []string {
 	var out []string
